@@ -127,5 +127,5 @@ rinst!(t, dec_btree_map_r10, 12, pb::pb_btree_map_r::<10, 0>);
 rinst!(t, dec_btree_map_r2_keyonly, 12, pb::pb_btree_map_r::<2, 2>);
 rinst!(q, dec_btree_map_r1_valueonly, 12, pb::pb_btree_map_r::<1, 3>);
 rinst!(q, dec_rep_int32_packed_r1_len1, 12, pb::pb_rep_int32_r1::<true, 1>);
-rinst!(q, dec_rep_int32_packed_r1_len10, 12, pb::pb_rep_int32_r1::<true, 10>);
+rinst!(t, dec_rep_int32_packed_r1_len10, 12, pb::pb_rep_int32_r1::<true, 10>);
 rinst!(q, dec_rep_int32_unpacked_r1_len2, 12, pb::pb_rep_int32_r1::<false, 2>);
